@@ -13,7 +13,9 @@ use std::{
 
 use fn_graph::{FnGraph, FnRef, StreamOpts, StreamOutcome, StreamOutcomeState};
 use futures::{stream::Stream, FutureExt, StreamExt};
-use interruptible::{InterruptSignal, InterruptibilityState, PollOutcome};
+use interruptible::InterruptSignal;
+#[cfg(feature = "int")]
+use interruptible::{InterruptibilityState, PollOutcome};
 use serde_json::{json, Value};
 use tokio::sync::mpsc;
 
@@ -105,6 +107,18 @@ pub enum SItem {
 }
 type SStream = Pin<Box<dyn Stream<Item = SItem>>>;
 
+/// fn_graph built without `interruptible`: the only option is the order.
+#[cfg(not(feature = "int"))]
+fn mk_opts(cfg: &RunCfg, _rx: Option<mpsc::Receiver<InterruptSignal>>, _w: &W, _run: usize) -> StreamOpts<'static, 'static> {
+    assert!(cfg.strategy == "none", "harness: interruptibility needs the `int` feature");
+    let mut o = StreamOpts::new();
+    if cfg.order == "rev" {
+        o = o.rev();
+    }
+    o
+}
+
+#[cfg(feature = "int")]
 fn mk_opts(cfg: &RunCfg, rx: Option<mpsc::Receiver<InterruptSignal>>, w: &W, run: usize) -> StreamOpts<'static, 'static> {
     let mut o = StreamOpts::new();
     if cfg.order == "rev" {
@@ -375,10 +389,12 @@ fn mk_stream(
     match (cfg.api.as_str(), cfg.with) {
         ("stream", false) if plain_default => Box::pin(g.stream().map(SItem::Item)),
         ("stream", _) => Box::pin(g.stream_with(opts).map(SItem::Item)),
+        #[cfg(feature = "int")]
         ("stream_int", false) if plain_default => Box::pin(g.stream_interruptible().map(|po| match po {
             PollOutcome::NoInterrupt(r) => SItem::Item(r),
             PollOutcome::Interrupted(r) => SItem::Interrupted(r),
         })),
+        #[cfg(feature = "int")]
         ("stream_int", _) => Box::pin(g.stream_with_interruptible(opts).map(|po| match po {
             PollOutcome::NoInterrupt(r) => SItem::Item(r),
             PollOutcome::Interrupted(r) => SItem::Interrupted(r),
@@ -494,6 +510,26 @@ pub fn in_task_poll<T>(burn: u32, f: impl FnOnce() -> T) -> T {
     })
 }
 
+/// Without the `int` feature fn_graph has no interruptibility: every option set is reduced to its
+/// order / limit / body, and `stream_interruptible` to `stream`.
+fn normalise(cfg: &RunCfg) -> RunCfg {
+    #[allow(unused_mut)]
+    let mut c = cfg.clone();
+    #[cfg(not(feature = "int"))]
+    {
+        c.strategy = "none".into();
+        c.k = 0;
+        c.include = true;
+        c.pre_signal = false;
+        c.tx_drop = false;
+        c.sync_sig.clear();
+        if c.api == "stream_int" {
+            c.api = "stream".into();
+        }
+    }
+    c
+}
+
 impl Exec {
     pub fn new(w: W, g: *mut FnGraph<Node>, cfgs: &[RunCfg]) -> Self {
         Exec {
@@ -502,7 +538,7 @@ impl Exec {
             runs: cfgs
                 .iter()
                 .map(|cfg| Run {
-                    cfg: cfg.clone(),
+                    cfg: normalise(cfg),
                     status: Status::NotCalled,
                     body: Body::None,
                     flag: FlagWaker::new(),
